@@ -282,6 +282,15 @@ def execute(plan, ctx):
             eg2.weights_.sort_index().equals(eg.weights_.sort_index())
         if not same:
             ctx.fail("C08.clock_dependence", "weights_/best_gap_/best_iter_ differ under an all-stall clock")
+    # reach probes: the rare conditions under which bookkeeping slips become visible
+    if bi != int(eg.last_iter_):
+        ctx.probe("best_iter_before_last_iter")
+    if list(w.index) != sorted(w.index):
+        ctx.probe("weights_index_unsorted")
+    if certified == "EG" and "LP" in cands:
+        ctx.probe("eg_iterate_certified_although_lp_ran")
+    if (w == 0).any():
+        ctx.probe("zero_weight_predictor")
     ties = ctx.faults.get("oracle_tiebreak", 0)
     ctx.event("eg_done", gap=gap, best_iter=bi, last_iter=int(eg.last_iter_), n_pred=len(eg.predictors_),
               weights=[float(w[t]) for t in sorted(w.index)], err=err_q, viol=viol, calls=int(eg.n_oracle_calls_))
